@@ -116,6 +116,9 @@ func c12Sizes(rng *lab.RNG, cs c12Case, n int, budget int) []int {
 		if s < 1 {
 			s = 1
 		}
+		if rng.Chance(0.01) {
+			s = 0 // a zero-length request hands out nothing
+		}
 		if total+s > budget {
 			s = 1 + rng.Intn(16)
 		}
@@ -181,7 +184,7 @@ func c12One(c *Ctx, wd *lab.Watchdog, rng *lab.RNG, cs c12Case, bulk bool) {
 							wd.Enter(w, fmt.Sprintf("AllocateAligned(%d) epoch %d", sz, epoch))
 							s = a.AllocateAligned(sz)
 							wd.Leave(w)
-							if len(s) == sz {
+							if len(s) == sz && sz > 0 {
 								if uintptr(unsafe.Pointer(&s[0]))%8 != 0 {
 									fail("aligned-not-aligned", fmt.Sprintf("AllocateAligned(%d) returned address %p", sz, &s[0]))
 								}
@@ -216,6 +219,9 @@ func c12One(c *Ctx, wd *lab.Watchdog, rng *lab.RNG, cs c12Case, bulk bool) {
 					if len(s) != sz {
 						fail("wrong-length", fmt.Sprintf("requested %d bytes, got %d (kind %d)", sz, len(s), kind))
 						return
+					}
+					if sz == 0 {
+						continue // nothing handed out
 					}
 					for j := range s {
 						s[j] = c12Pattern(tag, j)
